@@ -92,3 +92,22 @@ package level
 //@   ensures Sfail(s) ==> err != nil                                                 [@errprop]
 //@   ensures !Sfail(s) && (k > 5 || cnt < 0) ==> err != nil                          [@value]
 //@   modifies b.data, b.data[0:cap(b.data)], stream(r)                               [@frame]
+
+//@ func (*BitStorage).WriteTo(b; w) (n, err)
+//@   let wk = sink(w)
+//@   let l0 = old(Wlen(wk))
+//@   ensures all(k, 0, l0, Wout(wk, k) == old(Wout(wk, k)))                         [@frame]
+//@   let hl = leb32_len(uint32(len(b.data)))
+//@   requires len(b.data) < 1<<31
+//@   loop 0: modifies sink(w)
+//@   loop 0: invariant -1 <= rangeindex && rangeindex < len(b.data) || (rangeindex == -1 && len(b.data) == 0)
+//@   loop 0: invariant n == hl + 8*(rangeindex+1) && Wlen(wk) == l0 + n && !Wfail(wk)
+//@   loop 0: invariant all(q, 0, 5, q < hl ==> Wout(wk, l0+q) == leb32_byte(uint32(len(b.data)), q))
+//@   loop 0: invariant all(j, 0, rangeindex+1, be64(Woutrow(wk), l0 + hl + 8*j) == b.data[j])
+//@   loop 0: invariant all(k, 0, l0, Wout(wk, k) == old(Wout(wk, k)))
+//@   ensures err == nil ==> n == hl + 8*len(b.data) && Wlen(wk) == l0 + n           [@count]
+//@   ensures err == nil ==> all(q, 0, 5, q < hl ==> Wout(wk, l0+q) == leb32_byte(uint32(len(b.data)), q))   [@value]
+//@   ensures err == nil ==> all(j, 0, len(b.data), be64(Woutrow(wk), l0 + hl + 8*j) == b.data[j])           [@value]
+//@   ensures Wfail(wk) ==> err != nil                                                [@errprop]
+//@   ensures !Wfail(wk) ==> err == nil                                               [@errprop]
+//@   modifies sink(w)                                                                [@frame]
